@@ -66,6 +66,10 @@ CHECKS = {
    "exhaustive enumeration of layout transformations (re-wrap widths, blank-line sites, trailing blanks per line, CRLF, missing final newline, and their combinations) of generated valid files, differential comparison of the parsed record lists",
    "FASTA: every list of <=2 records from 6 record shapes at widths 1,2,3,60 plus 4097/12289-letter records at widths up to 20000 (lines far beyond the 4096-byte buffer), every blank-line site (thorough: pairs), every per-line and all-line trailing blank variant, CRLF and final-newline presence, combined; FASTQ likewise with blank lines at record boundaries; BED (all 5 types) and GFF (features, regions, inline sequences in last position or not): CRLF x final newline.",
    "Only the layout changes the statement names are generated; comparison is against the canonical file written by the library's own writer."),
+ "C10": (E3, "exploration", "DESIGN.md §3 C10",
+   "bounded-exhaustive enumeration of short sequences over {a,c,g,t,n} (and mixed case) for k=4 with all 256 words queried and every sub-range iterated, of sequences around k for k=5..10, and of all word values for the encoding helpers, against brute-force windows and string operations",
+   "k=4: all sequences of length 5..7 (thorough 8) over 5 letters plus case variants, every word, every sub-range; k=5..7: all sequences of length k+1..k+2 over {a,t,n}; k=8..10: all sequences of length k+1 over {a,n} (thorough {a,t,n}); every word value for k=2..6 (thorough 8) for Format/KmerOf/GCof/ComplementOf.",
+   "Positions compared as sets; ranges shorter than k must not call back; k=1 is outside the supported range (ComplementOf(1,.) does not terminate); long sequences are not covered."),
 }
 PENDING = {}  # id -> reason, for properties not (yet) claimed
 
